@@ -4,12 +4,16 @@
 A case is {"k": "expr", "cfg": c, "prog": [postfix tokens]}; tokens:
   <opnd>                       leaf as in c05.py ("scalar" | "array" | "<cls>:<static>:<kw>")
   sumjunc                      ct.summing_junction(['u', '-y'], 'e')
-  sample=<rat>  pow=<int>  un=<name>  bin=<add|sub|mul|div>  fb
+  sample=<rat>  pow=<int>  un=<name>  bin=<add|sub|mul|div>  fb  lft
+  <opnd>^                      the same leaf built as a 2x2 upper system for `lft` (c05.build_upper); the
+                               marker is for the implementation only (the model carries no shapes)
   series=<n> parallel=<n> append=<n> combine=<n> ic=<n>=<kw>
 
 Streams:
   * `block_cells`: exhaustive -- `append(a, b)[0, 0] <op> c` for every ordered triple of timebases and six
     class patterns (blocks of MIMO systems re-created by `__getitem__`, then combined onward);
+  * `lft_cells`: exhaustive -- `P.lft(K) <op> c`, `append(a, b).lft(c)`, `P.sample(Ts).lft(K)`,
+    `<unary>(P).lft(K)` and nested `P3.lft(K1).lft(K2)` for every ordered triple / pair of timebases;
   * `nary3_cells`: exhaustive — every ordered triple of timebases from {None, 0, True, 0.1, 0.25} for
     series / parallel / append / interconnect / combine_tf over several class patterns (the model's
     left-to-right fold of `common_timebase` against the real n-ary functions);
@@ -48,8 +52,15 @@ TS = ["1/2", T01, "1/4"]
 # generation
 # ----------------------------------------------------------------------------
 
+NOLEAF = ("fb", "lft")
+
+
+def _isleaf(t):
+    return "=" not in t and t not in NOLEAF
+
+
 def line(c):
-    return "dtx %s %s" % (c["cfg"], " ".join(c["prog"]))
+    return "dtx %s %s" % (c["cfg"], " ".join(t.rstrip("^") for t in c["prog"]))
 
 
 def _kwtoks():
@@ -120,6 +131,59 @@ def block_cells(tier):
     return cells
 
 
+def lft_cells(tier):
+    """history classes around `StateSpace.lft` (strengthening after C05-m6): the result of an lft combined
+    onward, an upper system that is itself the result of a library operation (append, sampling, unary
+    operations / conversions), and nested lfts -- for every ordered triple (pair) of the five timebases,
+    `default_dt` in rotation (quick) or all four (thorough).  Upper leaves (`^`) have a zero feed-through
+    from the control inputs to the measurement outputs, `append(a, b)` uppers have a static `b` or a
+    constant lower system, so that no cell can fail because the loop is not well-posed"""
+    B = _b()
+    toks = _kwtoks()
+    progs = []
+    # P.lft(K) <op> c
+    for (kc, cc, op) in (("ss", "ss", "mul"), ("tf", "tf", "add"), ("ss", "frd", "mul"), ("tf", "nl", "add"),
+                         ("array", "ss", "sub")):
+        for a in toks:
+            for b in (toks if kc != "array" else ["-"]):
+                for c in toks:
+                    K = "array" if kc == "array" else "%s:0:%s" % (kc, b)
+                    progs.append(["ss:0:%s^" % a, K, "lft", "%s:0:%s" % (cc, c), "bin=" + op])
+    # append(a, b).lft(c): the upper system is assembled by the library
+    for (ca, cb, cc) in (("ss:0", "ss:1", "ss:0"), ("ss:0", "ss:0", "tf:1"), ("ss:1", "tf:1", "ss:0"),
+                         ("tf:0", "ss:1", "ss:0")):
+        for a in toks:
+            for b in toks:
+                for c in toks:
+                    progs.append(["%s:%s" % (ca, a), "%s:%s" % (cb, b), "append=2", "%s:%s" % (cc, c), "lft"])
+    for a in toks:
+        for c in toks:
+            progs.append(["ss:0:%s" % a, "scalar", "append=2", "tf:0:%s" % c, "lft"])
+            progs.append(["ss:0:%s" % a, "ss:0:%s" % c, "append=2", "array", "lft"])
+    # unary operations / conversions / sampling on the upper system or on the result
+    for a in toks:
+        for b in toks:
+            for u in ("neg", "copy", "rename", "toSS"):
+                progs.append(["ss:0:%s^" % a, "un=" + u, "ss:0:%s" % b, "lft"])
+            for u in ("neg", "toTF", "toFRD", "toNL", "lin", "getitem"):
+                progs.append(["ss:0:%s^" % a, "tf:0:%s" % b, "lft", "un=" + u])
+            progs.append(["ss:0:%s^" % a, "ss:0:%s" % b, "lft", "pow=2"])
+            progs.append(["ss:0:%s^" % a, "sample=1/2", "ss:0:%s" % b, "lft"])
+            progs.append(["ss:0:%s^" % a, "ss:0:%s" % b, "sample=" + T01, "lft"])
+            progs.append(["ss:0:%s^" % a, "ss:0:%s" % b, "lft", "sample=1/4"])
+    # nested: a 3x3 upper system closed twice
+    for a in toks:
+        for b in toks:
+            for c in toks:
+                progs.append(["ss:0:%s^^" % a, "ss:0:%s" % b, "lft", "tf:0:%s" % c, "lft"])
+    cells = []
+    for i, prog in enumerate(progs):
+        cfgs = B.CFGS if tier != "quick" else [B.CFGS[i % len(B.CFGS)]]
+        for cfg in cfgs:
+            cells.append({"k": "expr", "cfg": cfg, "prog": prog})
+    return cells
+
+
 def _bincls(a, b, div=False):
     """class of `a op b` (steering only; mirrors `binResult` / `divResult`)"""
     if a is None or b is None or (a == "const" and b == "const"):
@@ -166,6 +230,8 @@ class Gen:
         if depth <= 0 or rng.random() < 0.15:
             return self.leaf(pool=pool)
         r = rng.random()
+        if r < 0.05:
+            return self.lft(depth, pool)
         if r < 0.22:
             return self.unary(depth, pool)
         if r < 0.32:
@@ -211,6 +277,19 @@ class Gen:
         if op == "neg" and c in ("nl", "ic"):
             res = "ic"
         return self.node(x["prog"] + ["un=" + op], res, pos=x["pos"] and op != "neg")
+
+    def lft(self, depth, pool):
+        """`P.lft(K)`: P an upper leaf (2x2 StateSpace with zero control-to-measurement feed-through, so every
+        SISO K gives a well-posed loop), possibly under a shape-agnostic unary operation; K any SISO
+        expression or a constant (FRD / non-linear K: TypeError in model and implementation)"""
+        rng = self.rng
+        st = "1" if rng.random() < 0.2 else "0"
+        prog = ["ss:%s:%s^" % (st, rng.choice(pool))]
+        if rng.random() < 0.3:
+            prog.append("un=" + rng.choice(["neg", "copy", "rename", "toSS"]))
+        y = self.const() if rng.random() < 0.12 else self.gen(depth - 1, pool)
+        c = "ss" if y["cls"] in ("ss", "tf", "const") else None
+        return self.node(prog + y["prog"] + ["lft"], c, pos=False)
 
     def power(self, depth, pool):
         rng = self.rng
@@ -423,6 +502,7 @@ def cells(fam, rng, tier):
             for op in ("neg", "copy", "rename")]
     out += nary3_cells(rng)
     out += block_cells(tier)
+    out += lft_cells(tier)
     out += near_cells()
     out += rnd_cells(rng, 1500 if tier == "quick" else 8000)
     return out
@@ -434,6 +514,8 @@ def corpus():
         {"k": "expr", "cfg": "Q0", "prog": ["tf:0:Q1/4", "pow=0"]},
         {"k": "expr", "cfg": "T", "prog": ["frd:0:N", "frd:0:N", "append=2", "un=getitem", "frd:0:Q0", "bin=mul"]},
         {"k": "expr", "cfg": "Q0", "prog": ["ss:0:N", "tf:0:Q0", "bin=mul", "sample=1/2", "ss:0:T", "fb", "pow=2"]},
+        {"k": "expr", "cfg": "T", "prog": ["ss:1:-^", "tf:0:Q" + T01, "lft", "ss:0:Q" + T01, "bin=mul"]},
+        {"k": "expr", "cfg": "Q0", "prog": ["ss:0:N", "ss:1:-", "append=2", "ss:0:T", "lft"]},
     ]
 
 
@@ -452,12 +534,12 @@ def symbolic(prog, leafdts):
     st = []
     it = iter(leafdts)
     for t in prog:
-        if "=" not in t and t != "fb":
+        if _isleaf(t):
             d = next(it)
             st.append(([("N" if d == "-" else d)], d))
             continue
-        if t == "fb":
-            key, n, extra = "fb", 2, []
+        if t in NOLEAF:
+            key, n, extra = t, 2, []
         else:
             parts = t.split("=")
             key = parts[0]
@@ -492,8 +574,13 @@ def run_prog(prog, objs):
     st = []
     it = iter(objs)
     for t in prog:
-        if "=" not in t and t != "fb":
+        if _isleaf(t):
             st.append(next(it))
+            continue
+        if t == "lft":
+            y = st.pop()
+            x = st.pop()
+            st.append(x.lft(y))
             continue
         if t == "fb":
             y = st.pop()
@@ -551,6 +638,8 @@ def exact_dt_value(t):
 def build_leaf(t):
     if t == "sumjunc":
         return ct.summing_junction(inputs=["u", "-y"], output="e")
+    if t.endswith("^"):                                   # upper system of an lft: 2x2 (`^`) or 3x3 (`^^`)
+        return _b().build_upper(t.rstrip("^"), n=1 + len(t) - len(t.rstrip("^")))
     return _b().build(t)
 
 
@@ -558,12 +647,12 @@ def impl(c):
     B = _b()
     prog = c["prog"]
     try:
-        objs = [build_leaf(t) for t in prog if "=" not in t and t != "fb"]
+        objs = [build_leaf(t) for t in prog if _isleaf(t)]
     except Exception as e:  # noqa
         return {"err": B.classify_exc(e), "exc": "%s: %s" % (type(e).__name__, str(e)[:120])}
     leaves, want = symbolic(prog, [B.opnd_dt(o) for o in objs])
     res = {"L": leaves, "W": ("N" if want == "-" else want),
-           "SJ": [B.opnd_dt(o) for t, o in zip([t for t in prog if "=" not in t and t != "fb"], objs)
+           "SJ": [B.opnd_dt(o) for t, o in zip([t for t in prog if _isleaf(t)], objs)
                   if t == "sumjunc"]}
     with warnings.catch_warnings():
         warnings.simplefilter("ignore")          # scipy BadCoefficients etc.: numbers are not compared
@@ -604,10 +693,10 @@ def parse_model(c, out):
 
 
 def nontrivial(c):
-    return any(":" in t and "=" not in t and t.split(":")[2] != "N" for t in c["prog"]) or \
+    return any(":" in t and "=" not in t and t.rstrip("^").split(":")[2] != "N" for t in c["prog"]) or \
         any(t.startswith("sample=") for t in c["prog"])
 
 
 def opset(c):
     return "+".join(sorted({t.split("=")[0] + ("=" + t.split("=")[1] if t.startswith("un=") else "")
-                            for t in c["prog"] if "=" in t or t == "fb"}))
+                            for t in c["prog"] if "=" in t or t in NOLEAF}))
